@@ -10,7 +10,7 @@ from ..engine import Prop, Verdict
 
 RECV = {"Array": [("[1, 2]", ["Integer"]), ('[1, "s"]', ["Integer", "String"]), ('["a"]', ["String"])],
         "Hash": [('{a: 1, b: "s"}', ["Integer", "String"])], "Range": [("(1..3)", ["Integer"])], "String": [('"abc"', None)], "Integer": [("3", None)]}
-PR = {"Int": "Integer", "String": "String", "Float": "Float", "Symbol": "Symbol", "Bool": "Bool", "NilClass": "NilClass", "Untyped": "untyped"}
+PR = {"Int": "Integer", "String": "String", "Float": "Float", "Symbol": "Symbol", "Bool": "Bool", "NilClass": "NilClass", "Untyped": "untyped", "Bq": "Bq"}
 OUTER = [(":sym", "Symbol"), ("1.5", "Float"), ('"outer"', "String")]
 
 
@@ -51,7 +51,7 @@ class Check(Prop):
     RULE = ("cases = a block call on a literal-built receiver (arrays of one or two element types, hash, range, string, integer) of every "
             "shipped method that declares block_parameters (incl. inherited Enumerable methods), with 0-3+ block parameters (declared "
             "count minus one up to plus two), do/end or braces, a parameter that shadows an outer variable, a variable first assigned "
-            "inside the block, optionally nested inside another block. Oracle (model of docs/ti-config.md): inside the block parameter i "
+            "inside the block, optionally nested inside another block; a third of the generated cases use a generated configured class Bq whose method declares 1-4 random block_parameters (Int/String/Float/Symbol/Bool/NilClass/Untyped/Bq). Oracle (model of docs/ti-config.md): inside the block parameter i "
             "has the declared type (Int/String/Float/Symbol/Bool/NilClass/Untyped as is, Unify = the receiver's element types; Item, "
             "Flatten, UnifyArgument are not modelled - only scoping is asserted for them), surplus parameters are NilClass; after the "
             "block the shadowed outer variable has its previous type and the block-local variable is not visible (Unknown). "
@@ -74,7 +74,24 @@ class Check(Prop):
                 for brace in (False, True):
                     yield {"m": m, "recv": lit, "elem": elem, "nparams": len(m["bps"]) + 1, "brace": brace, "shadow": 0, "outer": 0, "nest": False}
 
+    def gen_strategy(self):
+        """Generated configured class with random block_parameters (modelled kinds only)."""
+        kinds = ["Int", "String", "Float", "Symbol", "Bool", "NilClass", "Untyped", "Bq"]
+
+        @st.composite
+        def case(draw):
+            bps = draw(st.lists(st.sampled_from(kinds), min_size=1, max_size=4))
+            nargs = draw(st.integers(0, 2))
+            n = max(0, len(bps) + draw(st.integers(-1, 2)))
+            m = {"cls": "Bq", "name": "bm", "bps": bps, "req": nargs}
+            return {"m": m, "recv": "Bq.new", "elem": None, "nparams": n, "brace": draw(st.booleans()), "shadow": draw(st.integers(0, max(0, n))),
+                    "outer": draw(st.integers(0, len(OUTER) - 1)), "nest": draw(st.integers(0, 3)) == 0, "gen": True}
+        return case()
+
     def strategy(self):
+        return st.one_of(self.shipped_strategy(), self.shipped_strategy(), self.gen_strategy())
+
+    def shipped_strategy(self):
         meths = self.meths
 
         @st.composite
@@ -136,8 +153,18 @@ class Check(Prop):
         key = run.sha(src)
         m = case["m"]
         labels = ["recv:" + m["cls"], "brace" if case["brace"] else "do-end", "nparams:%d" % case["nparams"]] + (["nested"] if case.get("nest") else [])
+        config = "shipped"
+        if case.get("gen"):
+            labels.append("generated-config")
+            if not hasattr(self, "_shipped_files"):
+                from .c14 import shipped_config
+                self._shipped_files = shipped_config(self.repo)
+            config = dict(self._shipped_files)
+            config["zz_bq.json"] = json.dumps({"frame": "Builtin", "class": "Bq", "instance_methods": [
+                {"name": "bm", "arguments": [{"type": ["Int"]} for _ in range(m["req"])], "return_type": {"type": ["Self"]}, "block_parameters": m["bps"]}],
+                "class_methods": [{"name": "new", "arguments": [], "return_type": {"type": ["Bq"]}}]})
         try:
-            recs = meta.analyse(rt, src, [])
+            recs = meta.analyse(rt, src, [], config=config)
         except meta.Discard as d:
             return meta.discard_verdict(d, labels, key)
         by_row = {}
